@@ -298,9 +298,12 @@ func genDefinition(rg *rng, cfg *genCfg, st genStats, l byte, gmn uint16) *recor
 	if rg.chance(cfg.dev, 1000) {
 		r.DevFlg = true
 		nd := rg.intn(4)
+		if rg.chance(1, 6) {
+			nd = 4 + rg.intn(4) // many developer fields: their total may exceed the decoder's 765-byte scratch buffer
+		}
 		for i := 0; i < nd; i++ {
 			sz := rg.intn(9)
-			if rg.chance(1, 5) {
+			if rg.chance(1, 5) || (nd > 3 && rg.chance(2, 3)) {
 				sz = rg.intn(256) // large developer fields: their sizes may add up to more than 255 bytes per record
 				st["large_dev_field"]++
 			}
@@ -383,6 +386,11 @@ func fileIdRecords(rg *rng, cfg *genCfg, st genStats, ft byte) (record, record) 
 	if rg.bool() && !cfg.noTimestamp {
 		d.Fields = append(d.Fields, fieldDefS{4, 4, byte(types.BaseUint32)})
 	}
+	if rg.chance(1, 6) {
+		// a long product_name (string, any size up to 255 is legal): the file_id message alone exceeds 128 bytes
+		d.Fields = append(d.Fields, fieldDefS{8, byte(100 + rg.intn(156)), byte(types.BaseString)})
+		st["file_id_long_product_name"]++
+	}
 	// shuffle
 	for i := len(d.Fields) - 1; i > 0; i-- {
 		j := rg.intn(i + 1)
@@ -394,6 +402,8 @@ func fileIdRecords(rg *rng, cfg *genCfg, st genStats, ft byte) (record, record) 
 			pay = append(pay, ft)
 		} else if f.Num == 4 {
 			pay = append(pay, timePattern(rg, d.Arch == 1, 4)...)
+		} else if f.Num == 8 {
+			pay = append(pay, stringPattern(rg, int(f.Size))...)
 		} else {
 			pay = append(pay, valuePattern(rg, int(f.Size))...)
 		}
